@@ -40,17 +40,24 @@ impl AR {
         self
     }
 
-    /// Given some data, predict the value for a single timestep ahead.
+    /// Given some data, predict the value for a single timestep ahead. The model is fitted to the
+    /// mean-centred series, so the recursion is applied to `data - intercept` and the intercept is
+    /// added back.
     pub fn predict_one(&self, data: &[f64]) -> f64 {
         let n = data.len();
         let coeff_len = self.coeffs.len();
-        if n >= coeff_len {
-            dot(&data[n - coeff_len..], &self.coeffs)
+        let (history, coeffs) = if n >= coeff_len {
+            (&data[n - coeff_len..], &self.coeffs[..])
         } else {
             // maybe panic instead? or return NA
             // return std::f64::NAN;
-            dot(data, &self.coeffs[..n])
-        }
+            (data, &self.coeffs[..n])
+        };
+        let centred = history
+            .iter()
+            .map(|x| x - self.intercept)
+            .collect::<Vec<f64>>();
+        dot(&centred, coeffs) + self.intercept
     }
 
     /// Predict n values ahead. For forecasts after the first forecast, uses previous forecasts as
@@ -62,11 +69,7 @@ impl AR {
         for i in self.coeffs.len()..d.len() {
             d[i] = self.predict_one(&d[..i]);
         }
-        d[d.len() - n..]
-            .to_vec()
-            .iter()
-            .map(|x| x + self.intercept)
-            .collect()
+        d[d.len() - n..].to_vec()
     }
 }
 
